@@ -116,6 +116,10 @@ struct PartStats {
     traces: HashSet<u64>,
 }
 
+/// Whether executions record their order of shared-memory steps (off for the one
+/// configuration whose 10^7 distinct orders would only cost memory).
+static COLLECT_TRACES: AtomicBool = AtomicBool::new(true);
+
 thread_local! {
     static IN_SHUTTLE: Cell<bool> = const { Cell::new(false) };
     static EX: RefCell<Exec> = RefCell::new(Exec::default());
@@ -227,7 +231,9 @@ fn model(cfg: Cfg, keep_log: bool) {
     let (wakeups, trace) = EX.with(|e| (e.borrow().wakeups, e.borrow().trace));
     STATS.with(|s| {
         let mut s = s.borrow_mut();
-        s.traces.insert(trace);
+        if COLLECT_TRACES.load(Ordering::Relaxed) {
+            s.traces.insert(trace);
+        }
         let class = match wakeups {
             0 => "returned:without-blocking".to_string(),
             k => format!("returned:after-{k}-wakeups"),
@@ -737,6 +743,8 @@ fn gate_hook(label: &'static str) {
 
 /// (configuration, partition depth, comparison group): configurations of one group differ only in
 /// the hook-point set and must reach the same set of shared-memory step orders.
+const GROUP_G3: u32 = 11;
+
 fn configs(tier: Tier) -> Vec<(Cfg, usize, Option<u32>)> {
     if let Ok(s) = std::env::var("C41_ONLY") {
         // measurement aid: "guards,pre_dropped,rewait(0|1),mask,depth"
@@ -764,10 +772,20 @@ fn configs(tier: Tier) -> Vec<(Cfg, usize, Option<u32>)> {
     }
     both(&mut v, 3, 2, false, &[FULL, MIN], 6);
     both(&mut v, 3, 1, false, &[FULL, MIN], 8);
+    // measured: 290 073 schedules / 46 368 orders
     both(&mut v, 3, 0, false, &[MIN], 10);
+    let g3 = v.last().unwrap().2;
+    assert_eq!(g3, Some(GROUP_G3));
+    // measured: 575 721 schedules / 114 720 orders
+    both(&mut v, 2, 0, true, &[MIN], 10);
     if tier == Tier::Thorough {
-        both(&mut v, 2, 0, true, &[MIN], 10);
-        both(&mut v, 3, 0, false, &[FULL], 12);
+        for p in (1..=3).rev() {
+            both(&mut v, 4, p, false, &[MIN], 10);
+        }
+        // measured: 64 424 571 schedules, the same 46 368 orders as MIN (checked again here)
+        v.push((Cfg { guards: 3, pre_dropped: 0, rewait: false, mask: FULL }, 12, Some(GROUP_G3)));
+        // measured: 147 943 178 schedules / 10 721 520 orders
+        v.push((Cfg { guards: 4, pre_dropped: 0, rewait: false, mask: MIN }, 12, None));
     }
     v
 }
@@ -838,6 +856,7 @@ fn main() {
     let mut distinct_orders = 0u64;
     for (cfg, depth, group) in configs(ctx.tier) {
         let t0 = Instant::now();
+        COLLECT_TRACES.store(group.is_some() || std::env::var("C41_ONLY").is_ok(), Ordering::Relaxed);
         let r = explore_cfg(cfg, depth, threads, deadline);
         if let Some(m) = &r.machinery {
             machinery_error(&ctx.id, &format!("{}: {m}", cfg.name()));
@@ -963,7 +982,7 @@ fn main() {
 
 fn spec() -> Spec<'static> {
     Spec {
-        rule: "Part 1 (E5): for each configuration (G guards created before the wait, p of them dropped on the waiter's thread before the wait, optional 'rewait' variant = first wait polled once and cancelled, one more guard created, second wait; hook-point set) EVERY schedule of {waiter, one thread per remaining guard} over the scheduling points {thread start/end, join, block on pending future, every enabled sched_point label} is executed on the real Counter (depth-first search over scheduler choices, no preemption bound). quick: G<=2 x p<=G with the full point set, rewait with G<=1, G<=2 with all 8 labels; thorough adds rewait G=2, G=3 with p in {1,2} (full set) and G=3 p=0 with the reduced set (full minus wait:start). A schedule is one state, a scheduler decision one transition; distinct by construction (DFS never repeats a choice vector); non-trivial = schedules in which the waiter actually blocked at least once. Part 2 (E3): real RedbStore (in-memory backend), 1..2 cancelled reads whose spawn_blocking tasks are parked inside CounterGuard::drop; every order of {close, take_i, notify_i} (take_i before notify_i), oracle after every event.",
+        rule: "Part 1 (E5): for each configuration (G guards created before the wait, p of them dropped on the waiter's thread before the wait, optional 'rewait' variant = a first wait polled once and cancelled, one more guard created and handed to a thread, second wait; hook-point set) EVERY schedule of {waiter, one thread per remaining guard} over the scheduling points {thread start/end, join, block on a pending future, every enabled sched_point label} is executed on the real Counter (depth-first search over scheduler choices, no preemption bound, partitioned by choice prefix over all cores; schedule counts cross-checked against shuttle's own DfsScheduler up to 3*10^5). Point sets: full = one point before every shared-memory step (take, notify_waiters, notified(), strong_count, poll of notified, re-arm); min = full minus guard:before-take (which directly follows the thread-start scheduling point); all = all 8 labels. Within a group (same G, p, variant) all point sets must reach the identical set of orders of shared-memory steps, else machinery error. quick: G<=2 x p<=G {full,min} (+all for p=0), rewait G<=1 {full,min}, G=3 p in {1,2} {full,min}, G=3 p=0 min, rewait G=2 min; thorough adds G=4 p in {1,2,3} min, G=3 p=0 full (64.4M schedules, compared with min) and G=4 p=0 min (147.9M schedules). One schedule = one state, one scheduler decision = one transition; distinct by construction (the DFS never repeats a choice vector); non-trivial = schedules in which the waiter actually blocked at least once. Part 2 (E3): real RedbStore (in-memory backend), 1..2 cancelled reads whose spawn_blocking tasks are parked inside CounterGuard::drop; every order of {close, take_i, notify_i} (take_i before notify_i; 3 + 30 orders), oracle after every event.",
         assumptions: &[
             "tokio::sync::Notify and Arc operations are atomic at the granularity of the hook points (tokio model-checks Notify with loom upstream)",
             "scheduling points exist only where the hooks are: between the statements of CounterGuard::drop and Counter::wait_guards, not inside Notify",
